@@ -106,6 +106,11 @@ func (t *ProcessorTask) Do(ctx context.Context, b *Batch) error {
 	if len(recsOut) == 0 {
 		return cerrors.Errorf("processor didn't return any records")
 	}
+	if len(recsOut) > len(recsIn) {
+		// surplus results have no record they could belong to; marking them
+		// would index past the batch's active records and panic
+		return cerrors.Errorf("processor was given %d record(s), but returned %d", len(recsIn), len(recsOut))
+	}
 	t.metrics.Observe(len(recsOut), start)
 
 	if len(recsIn) > len(recsOut) {
